@@ -122,6 +122,11 @@ WaitCases == {
   [W("jwt_finalizer", "token", "mid7", "unset", 0, HttpNone) EXCEPT !.seq = "waithit"],
   (* the same with a response that is 54 s old already when it arrives (Age) *)
   [W("httpcache", "http", "absent", "zero", 0, [cc |-> "maxage_aged", expires |-> "absent", date |-> "now", dttl |-> "zero"])
+     EXCEPT !.seq = "waithit"],
+  (* an origin whose clock is 100 s ahead (Date in the future, no Age): the response is not younger than new *)
+  [W("httpcache", "http", "absent", "zero", 0, [cc |-> "maxage6", expires |-> "absent", date |-> "ahead", dttl |-> "zero"])
+     EXCEPT !.seq = "waithit"],
+  [W("httpcache", "http", "absent", "set", 0, [cc |-> "maxage6", expires |-> "absent", date |-> "ahead", dttl |-> "set"])
      EXCEPT !.seq = "waithit"]
 }
 
